@@ -87,6 +87,24 @@ func genC07(e *emitter, tier string, seed uint64) {
 			}
 		}
 	}
+	// every opcode with a number beyond the machine-word range on top of, and second on, the stack (post-Genesis numbers
+	// are unbounded: any conversion to a machine integer inside an opcode must be guarded by a comparison on the big value)
+	{
+		bigs := [][]byte{{0, 0, 0, 0, 0, 0, 0, 0x80, 0x00}, {0, 0, 0, 0, 0, 0, 0, 0x80, 0x80}, {1, 0, 0, 0, 0, 0, 0, 0x80, 0x00}, {0xff, 0xff, 0xff, 0xff, 0xff, 0xff, 0xff, 0xff, 0x00},
+			{0, 0, 0, 0, 0, 0, 0, 0, 0x01}, {0xfe, 0xff, 0xff, 0xff, 0xff, 0xff, 0xff, 0xff, 0xff, 0xff, 0x7f}, {0, 0, 0, 0x80, 0x00}, {0, 0, 0, 0, 0x01}, {0xff, 0xff, 0xff, 0xff, 0xff, 0xff, 0xff, 0x7f}}
+		for op := 0x4f; op <= 0xb9; op++ {
+			for _, b := range bigs {
+				x, y := r.bytes(1+r.n(5)), r.bytes(1+r.n(5))
+				if op == 0x80 {
+					y = y[:1] // OP_NUM2BIN: a small size (a random 4-byte size is a legitimate 2 GB allocation, out of model)
+				}
+				for _, fl := range []int{fAfterGenesis, fAfterGenesis | fMinimalData} {
+					total(fl, append(append(rawPush(x), rawPush(y)...), rawPush(b)...), []byte{byte(op)}, 1, 0)
+					total(fl, append(append(rawPush(x), rawPush(b)...), rawPush(y)...), []byte{byte(op)}, 1, 0)
+				}
+			}
+		}
+	}
 	// a checked input that comes out of the library's own JSON decoder, previous-transaction ids of every length
 	{
 		k := genKey(r)
